@@ -219,11 +219,11 @@ template <typename PH> struct Prog {
     case 3: { // add_generator(s)
       bool emp = ref::is_empty(o.m);
       int cnt = (int) t.range(1, 2); Generator_System gs; ref::Union pieces; pieces.push_back(o.m);
-      std::vector<Vec> pts, cpts, rays, lines; std::string all;
+      std::vector<Vec> pts, cpts, rays, lines; std::string all; Generator first_gen = Generator::zero_dim_point();
       for (int i = 0; i < cnt; ++i) {
         int kind = (emp && i == 0) ? 2 : t.weighted({10, 25, 50, nnc ? 15 : 0});
         Vec v; std::string txt; Generator g = gen_generator(n, kind, v, txt);
-        gs.insert(g); all += (i ? ", " : "") + txt;
+        gs.insert(g); if (i == 0) first_gen = g; all += (i ? ", " : "") + txt;
         (kind == 0 ? lines : kind == 1 ? rays : kind == 2 ? pts : cpts).push_back(v);
       }
       if (gs.space_dimension() < n) gs.set_space_dimension(n);
@@ -231,7 +231,7 @@ template <typename PH> struct Prog {
       //   each new point is a piece; rays/lines/closure points are handled by the Minkowski pieces below.
       int how = cnt == 1 ? 0 : (int) t.range(1, 2);
       c.log << "  " << (how == 0 ? "add_generator " : how == 1 ? "add_generators {" : "add_recycled_generators {") << all << (how ? "}" : "") << "\n";
-      if (how == 0) o.ph.add_generator(*gs.begin()); else if (how == 1) o.ph.add_generators(gs); else o.ph.add_recycled_generators(gs);
+      if (how == 0) o.ph.add_generator(first_gen); else if (how == 1) o.ph.add_generators(gs); else o.ph.add_recycled_generators(gs);
       if (MODE_C01) { settle(o, "add_generator", 0); break; }
       // Reference: R must equal from_gens(generators of the model + new), where the model's own
       // generators are obtained *from the reference*, by describing P as pieces: we use the lifted
